@@ -338,7 +338,7 @@ def _job(args):
                         if ptc is None:
                             nxt.append((exp, h2))
         frontier = nxt
-    return nstates, ntrans, {k: (w, dict(rep, flow=flow, dim=dim,
+    return nstates, ntrans, {k: (w, dict(rep, flow=flow, dim=dim, ghost=ghost,
                                           props_to_copy=ptc, init=init_idx))
                              for k, (w, rep) in viol.items()}
 
@@ -395,4 +395,32 @@ def run(ctx):
 
 
 def replay(ctx, obj):
-    return dict(violates=True, note='re-run bin/check C16', **obj)
+    """Re-executes the recorded history (moves + stage per round) on a fresh
+    world and judges every round like the search does."""
+    flow, dim = obj['flow'], obj['dim']
+    ptc = obj.get('props_to_copy')
+    world = World(flow, dim, ptc, obj.get('ghost', False))
+    L, fl = world.L, world.fl
+    st = initial_states()[obj.get('init', 0)]
+    problems = []
+    for rnd, (mv, stage) in enumerate(obj['hist']):
+        moved = apply_move(st, (mv[0], mv[1]))
+        exp, ent, lft, dele = model_update(moved, L, fl, ptc, stage, 0)
+        world.set_state(moved)
+        n0 = len(moved['fluid'])
+        world.inlet.update(0.0, 0.1, stage)
+        world.outlet.update(0.0, 0.1, stage)
+        got = actual_records(world)
+        want = expected_records(exp, ptc)
+        bad = world.lengths_ok()
+        if bad:
+            problems.append((rnd, 'array-incoherent', bad))
+        if len(got['fluid']) != n0 + ent - lft:
+            problems.append((rnd, 'fluid-count', '%d vs %d + %d - %d' % (
+                len(got['fluid']), n0, ent, lft)))
+        for nm in ('inlet', 'fluid', 'outlet'):
+            if got[nm] != want[nm]:
+                problems.append((rnd, nm + '-records',
+                                 [x for x in got[nm] if x not in want[nm]][:2]))
+        st = exp
+    return dict(violates=bool(problems), problems=problems[:5])
